@@ -2,7 +2,6 @@
 package state
 
 import (
-	"encoding/json"
 	"testing"
 
 	"github.com/nspcc-dev/neo-go/internal/testserdes"
